@@ -9,7 +9,7 @@ namespace sim {
 
 std::unique_ptr<NiObject> synthBlock(NiHeader& hdr, const std::string& type, uint64_t seed, std::vector<std::pair<NiRef*, std::string>>* refsOut);
 bool classDerivesFromPublic(const std::string& blockType, const std::string& base);
-void checkWrittenFile(NifFile& nif, const std::string& bytes, const WriteMap& wm, Ctx& ctx, const std::string& where);
+void checkWrittenFile(NifFile& nif, const std::string& bytes, const WriteMap& wm, Ctx& ctx, const std::string& where, const std::string& classSuffix = "");
 
 static std::string typeNameOf(NiHeader& hdr, uint32_t i) {
 	auto o = hdr.GetBlock<NiObject>(i);
